@@ -162,10 +162,14 @@ _RQ = dict(request_id=string(), source=string(), destination=string(), tsp=strin
            nb_channel=integer(), f_min=real(), f_max=real(), format=opt(string()), OSNR=opt(real()), roll_off=opt(real()),
            tx_power=real(), bidir=boolean())
 _SAME = ' and '.join(f'req1.{f} == req2.{f}' for f in _RQ if f != 'request_id')
-contract('gnpy.topology.request.compare_reqs', name='gnpy.topology.request.compare_reqs[no disjunction]', props=['C16', 'C19', 'C13', 'C12'],
+contract('gnpy.topology.request.compare_reqs', name='gnpy.topology.request.compare_reqs[no disjunction]', props=['C16', 'C19', 'C13'],
          params={'req1': obj('<ns>', **_RQ), 'req2': obj('<ns>', **_RQ), 'disjlist': const([])},
          # two requests may be merged only when every field that decides route, mode and spectrum is the same
-         ensures=[('identical_in_every_deciding_field', f'iff(result, {_SAME})')],
+         ensures=[(f'same_{f}', f'implies(result, req1.{f} == req2.{f})') for f in _RQ if f != 'request_id'] +
+                 [('identical_requests_are_merged', f'implies({_SAME}, result)')],
+         # C13 (verdict of a request with a given mode, both directions) rests on the transponder / mode / direction fields only
+         prop_clauses={'C13': ['same_bidir', 'same_tsp', 'same_tsp_mode', 'same_baud_rate', 'same_OSNR', 'same_format', 'same_tx_power',
+                               'same_power', 'same_spacing']},
          use_at_calls=False, modifies=[])
 
 # a request built without a route list gets a list of its own: the class-level default list is shared by nobody
